@@ -3538,3 +3538,55 @@ example : replaceRef "(Red, (({c})), Blue)".toList ['c'] NA = "(Red, Blue)".toLi
     replaceRef "(({c})), Blue".toList ['c'] NA = "Blue".toList := by decide +kernel
 
 end HedVerif.C06
+
+/-! ### histories on one object -/
+
+namespace HedVerif.Assemble
+
+/-- what can be done to one `TabularInput`: ask for the rows, or install another sidecar
+(`reset_column_mapper`) -/
+inductive Op where
+  | assemble
+  | reset (sc : Sidecar)
+
+/-- the answers given along a history, and the object afterwards -/
+def runOps : Input → List Op → List (List Str) × Input
+  | x, [] => ([], x)
+  | x, .assemble :: ops => let (a, x') := call x; let (as, x'') := runOps x' ops; (a :: as, x'')
+  | x, .reset sc :: ops => runOps ⟨sc, x.table⟩ ops
+
+/-- the sidecar in force after a history -/
+def lastSidecar : Sidecar → List Op → Sidecar
+  | sc, [] => sc
+  | sc, .assemble :: ops => lastSidecar sc ops
+  | _, .reset sc' :: ops => lastSidecar sc' ops
+
+end HedVerif.Assemble
+
+namespace HedVerif.C06
+open HedVerif.Assemble
+
+/-- **After any history the rows are those of the last installed sidecar**: whatever was assembled or
+installed before, the table is the one the object was opened with, the sidecar is the last one installed,
+and the next answer is `series` of exactly these two — nothing computed for an earlier sidecar (such as
+its reference list) survives. -/
+theorem history_last_sidecar (x : Input) (ops : List Op) :
+    (runOps x ops).2 = ⟨lastSidecar x.sidecar ops, x.table⟩ ∧
+    (runOps x (ops ++ [.assemble])).1.getLast? = some (series (lastSidecar x.sidecar ops) x.table) := by
+  induction ops generalizing x with
+  | nil => exact ⟨rfl, rfl⟩
+  | cons op ops ih =>
+    cases op with
+    | assemble =>
+      obtain ⟨h1, h2⟩ := ih x
+      refine ⟨by simpa [runOps, call, lastSidecar] using h1, ?_⟩
+      simp only [List.cons_append, runOps, call, lastSidecar]
+      have hne : (runOps x (ops ++ [Op.assemble])).1 ≠ [] := by
+        intro e; rw [e] at h2; cases h2
+      rw [List.getLast?_cons_of_ne_nil hne]
+      exact h2
+    | reset sc =>
+      obtain ⟨h1, h2⟩ := ih ⟨sc, x.table⟩
+      exact ⟨by simpa [runOps, lastSidecar] using h1, by simpa [runOps, lastSidecar] using h2⟩
+
+end HedVerif.C06
